@@ -316,6 +316,68 @@ class Guards:
         return rels, raw
 
 
+def foralls_at(g, block):
+    """loop summaries: [('forall', iterator term, condition term, truth)] — `block` is only reachable
+    after a for-loop ran to exhaustion, and inside that loop the other outcome of the condition
+    leaves towards code from which `block` cannot be reached"""
+    body, ev, env = g.body, g.ev, g.env
+    out = []
+    for h, blk in body.natural_loops().items():
+        for lb in sorted(blk):
+            t = body.blocks[lb]["term"]
+            if not (t["k"] == "call" and "fn" in t and callee_id(t["fn"]) == "std::iter::Iterator::next"):
+                continue
+            sw = None
+            for b2 in sorted(blk):
+                t2 = body.blocks[b2]["term"]
+                if t2["k"] == "switch":
+                    variants, _, place = discr_variants(body, b2)
+                    if variants and place["l"] == t["dest"]["l"] and not place["proj"]:
+                        sw = b2
+            if sw is None:
+                continue
+            yes, no = variant_edge(body, sw, "None")
+            if not yes or any(tg in blk for _, tg in yes):
+                continue
+            if not all(body.edge_dominates(e, block) or e[1] == block for e in yes[:1]):
+                continue
+            it = ev.operand(env, t["args"][0], (lb, None))
+            for s in g.switches:
+                if s["block"] not in blk or s["block"] == sw or s["term"][0] == "discr":
+                    continue
+                for truth in (True, False):
+                    es = g.bool_edges(s, truth)
+                    if not es:
+                        continue
+                    aborting = True
+                    for _, tg in es:
+                        if tg in blk:
+                            r = body.reachable(tg, avoid=[h])
+                            if h in body.succ(tg) or any(h in body.succ(x) for x in r if x in blk) or block in r:
+                                aborting = False
+                        elif block in body.reachable(tg) or tg == block:
+                            aborting = False
+                    if aborting:
+                        out.append(("forall", it, s["term"], not truth))
+    return out
+
+
+def presence_conditions(ev, env, block):
+    """conditions that hold whenever `block` of env.body executes (bool guards, loop summaries)"""
+    g = Guards(ev, env.body, env)
+    rels, raw = g.relations_at(block)
+    out = set()
+    for term, truth, sw in raw:
+        if isinstance(truth, bool):
+            out.add(("pred", term if truth else ("un", "Not", term)))
+    for f in foralls_at(g, block):
+        out.add(f)
+    return out
+
+
+Eval.presence_hook = staticmethod(presence_conditions)
+
+
 def discr_variants(body, sw_block):
     """[(value, name)] table for a switch whose operand is a discriminant read in the same block"""
     for s in reversed(body.blocks[sw_block]["stmts"]):
@@ -478,3 +540,26 @@ def feasible_variants(body, test_block):
                 ok_vals.add(n)
         allowed = ok_vals if allowed is None else (allowed & ok_vals)
     return allowed
+
+
+def pruned(body, block, keep_target):
+    """copy of a body in which the switch of `block` is replaced by a goto to one target
+    (path restriction without path enumeration)"""
+    j = dict(body.j)
+    blocks = list(j["blocks"])
+    bb = dict(blocks[block])
+    bb["term"] = {"k": "goto", "t": keep_target}
+    blocks[block] = bb
+    j["blocks"] = blocks
+    return Body(j, body.facts)
+
+
+def is_absent_value(a):
+    """a term that denotes an absent / failed value"""
+    if a[0] in ("none", "from_residual", "unreachable"):
+        return True
+    if a[0] == "agg" and a[2] in ("Err", "None"):
+        return True
+    if a[0] == "phi":
+        return all(is_absent_value(x) for x in a[1])
+    return False
